@@ -4,6 +4,7 @@ composed with Model/Data.v against `verif ... --list-times/--list-locations` on 
 and random option subsets / orders / --config files.  Falsifier: order independence, --config
 inline equivalence and the documented rejections, on the implementation."""
 import contextlib
+import signal
 import io
 import math
 import os
@@ -130,6 +131,17 @@ def parse_list(out):
     return times, ids
 
 
+class _Hang(BaseException):
+    pass
+
+
+def _on_alarm(*a):
+    raise _Hang()
+
+
+signal.signal(signal.SIGALRM, _on_alarm)
+
+
 def cstr(s):
     return '"%s"' % s.replace('"', '""')
 
@@ -145,34 +157,40 @@ def _explore(out, tier, seed, facts, replay):
     rng = random.Random(seed + 1313)
     # ---- Tie B.1: vector syntax ------------------------------------------------------------------
     strings = ["3", "3,4,5", "3:5", "3:2:12", "3,4:6,2:5:9,6", "0.1:0.1:0.9", "5:-1:1", "5:1", "1:0:3", "1::3", "", ",", "1,,2", "a", "1:2:3:4",
-               "-3:-1", "-1.5:0.5:1", "0:0.001:0.01", "10:-2.5:0", "1:5:3", "2:2", "-999", "0.25,0.5", "1 2", "1;2", "1:1:1", "0:24:240"]
+               "-3:-1", "-1.5:0.5:1", "0:0.001:0.01", "10:-2.5:0", "1:5:3", "2:2", "-999", "0.25,0.5", "1 2", "1;2", "1:1:1", "0:24:240",
+               "1..2", "1-2", "-", ".", "1.2.3", "--1", "1:-", "1:.:3", "3,-", "1:2-3"]
     vals = [0, 1, 2, 3, 10, 0.5, 0.25, 1.5, -1, -2.5, 0.1, 0.001, 24]
     for _ in range(150 if tier == "quick" else 3000):
         a, b = rng.choice(vals), rng.choice(vals)
         st = rng.choice([1, 2, 0.5, 0.25, 0.1, -1, -0.5, 3, 0.001, 7])
         strings.append("%g:%g:%g" % (a, st, b) if rng.random() < 0.7 else "%g:%g" % (a, b))
-    singles = list(strings[27:])
+    singles = list(strings[37:])
     for _ in range(60 if tier == "quick" else 1000):       # comma combinations of ranges and single values
         strings.append(",".join(rng.choice(singles + ["7", "0.5", "-3"]) for _ in range(rng.randint(2, 3))))
-    dstrings = ["20120101", "20120227:20120302", "20121230:20130102", "20120101:7:20120201", "20120227:2:20120302", "20120228,20120301",
+    dstrings = ["20120101:0.5:20120103", "20120101:1.5:20120104", "20120101", "20120227:20120302", "20121230:20130102", "20120101:7:20120201", "20120227:2:20120302", "20120228,20120301",
                 "20000228:20000301", "19991231:20000101", "21000227:21000302", "20120105:-1:20120101", "20120230:20120302", "20120101:20111231"]
     for _ in range(40 if tier == "quick" else 400):
         y, m = rng.choice([1999, 2000, 2012, 2023, 2100]), rng.randint(1, 12)
         d0 = y * 10000 + m * 100 + rng.choice([1, 15, 27, 28])
         nxt = (y + (m == 12)) * 10000 + (m % 12 + 1) * 100 + rng.choice([1, 2, 5])
         dstrings.append("%d:%d:%d" % (d0, rng.choice([1, 1, 2, 7, 30]), nxt) if rng.random() < 0.6 else "%d:%d" % (d0, nxt))
-    dsingles = list(dstrings[12:])
+    dsingles = list(dstrings[14:])
     for _ in range(20 if tier == "quick" else 300):
         dstrings.append(",".join(rng.choice(dsingles) for _ in range(2)))
     exprs, expected, descr = [], [], []
     for is_date, lst in ((False, strings), (True, dstrings)):
         for s in lst:
             try:
+                signal.alarm(10)
                 r = [float(x) for x in verif.util.parse_numbers(s, is_date)]
+            except _Hang:
+                r = "exception:never-returns"
             except datagen.ImplExit:
                 r = "error"
             except Exception as e:
                 r = "exception:%s" % type(e).__name__
+            finally:
+                signal.alarm(0)
             exprs.append("match parse_numbers %s %s with OK l => map f_of_Q l | Error e => [(-7)%%float; f_of_nat e] end" % ("true" if is_date else "false", cstr(s)))
             expected.append(r)
             descr.append({"string": s, "is_date": is_date})
@@ -386,6 +404,49 @@ def _explore(out, tier, seed, facts, replay):
                     out.violation("agg-effect:%s" % mname, "verif %s writes %r; the %s aggregate of each lead time's values is %r" % (" ".join(argv[2:-1]), table, an, want),
                                   {"argv": argv, "rows(leadtime -> [(obs, fcst)])": {str(k): v for k, v in rows_a.items()}})
                     break
+        # ---- -obs / -fcst: any field of the file can take the role of the observation / forecast, independently of each other
+        ff_ = os.path.join(tmp, "fld.txt")
+        rows_f = [(l_, rng.randint(-8, 8) / 2.0, rng.randint(-8, 8) / 2.0, rng.randint(-8, 8) / 2.0, rng.randint(0, 8) / 8.0, rng.randint(10, 30) / 2.0, rng.randint(-30, -10) / 2.0)
+                  for l_ in (0, 6) for _ in range(3)]
+        with open(ff_, "w") as f_:
+            f_.write("unixtime leadtime location obs fcst tmin p-5 Tmax tmax\n")      # column names are case sensitive
+            for n_, (l_, o_, c_, t_, p_, u_, v_) in enumerate(rows_f):
+                f_.write("%d %d 1 %g %g %g %g %g %g\n" % (86400 * (n_ % 3), l_, o_, c_, t_, p_, u_, v_))
+        col_ = {"obs": 1, "fcst": 2, "tmin": 3, "threshold:-5": 4, "Tmax": 5, "tmax": 6}
+        for ofld, ffld in (("fcst", "tmin"), ("fcst", "obs"), ("tmin", "fcst"), (None, "tmin"), ("tmin", None), (None, "threshold:-5"),
+                           (None, "Tmax"), (None, "tmax"), ("Tmax", "tmax")):
+            fo = os.path.join(tmp, "fld_out.csv")
+            if os.path.exists(fo):
+                os.remove(fo)
+            argv = ["verif", ff_, "-m", "mae"] + (["-obs", ofld] if ofld else []) + (["-fcst", ffld] if ffld else []) + ["-x", "leadtime", "-type", "csv", "-f", fo]
+            r = run_cli(argv)
+            nf += 1
+            oi, fi = col_[ofld or "obs"], col_[ffld or "fcst"]
+            want = [sum(abs(r_[oi] - r_[fi]) for r_ in rows_f if r_[0] == l_) / 3.0 for l_ in (0, 6)]
+            got = None
+            if r[0] == "ok" and os.path.exists(fo):
+                try:
+                    got = [float(ln.split(",")[1]) for ln in open(fo).read().strip().split("\n")[1:]]
+                except ValueError:
+                    got = None
+            if got is None or len(got) != 2 or any(abs(g_ - w_) > 1e-5 * max(1, abs(w_)) for g_, w_ in zip(got, want)):
+                out.violation("obs-fcst-fields:%s" % ("both" if ofld and ffld else "one"), "verif %s gives %r (%s %s); the mean absolute difference of the columns %r and %r per lead time is %r"
+                              % (" ".join(argv[2:-2]), got, r[0], r[1][:120] if r[0] != "ok" else "", ofld or "obs", ffld or "fcst", want), {"argv": argv, "file": open(ff_).read()})
+        # ---- -x decides the rows, -Tx only the dimension of the pre-aggregation window; neither takes the other's role
+        for xopt, txopt, cfg_tx in (("leadtime", "time", False), ("time", "leadtime", False), (None, "time", False), ("leadtime", "time", True), ("location", "time", False)):
+            fo = os.path.join(tmp, "x_out.csv")
+            if os.path.exists(fo):
+                os.remove(fo)
+            cfgx = os.path.join(tmp, "cfg_tx.txt")
+            open(cfgx, "w").write("-Tx %s\n" % txopt)
+            argv = ["verif", fa, "-m", "mae"] + (["-x", xopt] if xopt else []) + ["-T", "2"] + (["--config", cfgx] if cfg_tx else ["-Tx", txopt]) + ["-type", "csv", "-f", fo]
+            r = run_cli(argv)
+            nf += 1
+            first = open(fo).read().split("\n")[0].split(",")[0].strip().lower() if r[0] == "ok" and os.path.exists(fo) else None
+            want_first = {"leadtime": "leadtime", "time": "time", "location": "id", None: "leadtime"}[xopt]
+            if first != want_first:
+                out.violation("x-versus-Tx", "verif %s: the table's first column is %r (%s); -x %s asks for %r rows whatever -Tx says" % (" ".join(argv[2:-2]), first, r[0], xopt or "(default: leadtime)", want_first),
+                              {"argv": argv})
         for mname in ("obsfcst", "scatter", "obs", "qq"):
             argv = ["verif", fa, "-m", mname, "-agg", "nosuchaggregator", "-f", os.path.join(tmp, "agg_out.png")]
             r = run_cli(argv)
@@ -401,8 +462,18 @@ def _explore(out, tier, seed, facts, replay):
                      ["verif", fn, "-m", "mae", "-obsrange", "1,2,3"], ["verif", fn, "-m", "mae", "-T", "0"], ["verif", fn, "-m", "mae", "-T", "-3"],
                      ["verif", fn, "-m", "quantilescore", "-q", "1.5"], ["verif", fn, "-m", "quantilescore", "-q", "0.5,-0.1,0.9"],
                      ["verif", os.path.join(tmp, "doesnotexist.txt"), "-m", "mae"], ["verif", fn, "--config"], ["verif", fn, "-m", "mae", "--config", os.path.join(tmp, "nocfg")],
-                     ["verif", fn, "-m", "mae", "-type", "nosuchtype"], ["verif", fn, "-m", "mae", "-agg", "1.5"]):
-            r = run_cli(argv + ["-type", "csv"] if "-type" not in argv else argv)
+                     ["verif", fn, "-m", "mae", "-type", "nosuchtype"], ["verif", fn, "-m", "mae", "-agg", "1.5"],
+                     ["verif", fn, "-m", "mae", "-r", "1..2"], ["verif", fn, "-m", "mae", "-l", "1-2"], ["verif", fn, "-m", "quantilescore", "-q", "1:0"],
+                     ["verif", fn, "-m", "mae", "-d", "20120101:0.5:20120103"], ["verif", fn, "-m", "mae", "-agg", "nan"], ["verif", fn, "-m", "mae", "-Tagg", "nan", "-T", "2"],
+                     ["verif", fn, "-m", "mae", "-T", "1.5"], ["verif", fn, "-m", "mae", "-dpi", "abc"], ["verif", fn, "-m", "mae", "-fcst", "threshold:"],
+                     ["verif", fn, "-m", "mae", "-fcst", "threshold"], ["verif", fn, "", "-m", "mae"]):
+            signal.alarm(20)
+            try:
+                r = run_cli(argv + ["-type", "csv"] if "-type" not in argv else argv)
+            except _Hang:
+                r = ("exception", "never returns")
+            finally:
+                signal.alarm(0)
             nf += 1
             if r[0] != "error":
                 out.violation("not-rejected:%s" % " ".join(argv[2:])[:40].replace(tmp, ""), "%r is not rejected with an error message and non-zero exit: %s %s"
